@@ -139,6 +139,8 @@ def run(res, tier, seed, wd, replay=None):
         args = ["macro-child", "--out", out, "--seed", seed * 1000 + i, "--calls", 40]
         if i % 3 == 0:
             args.append("--unset")
+        elif i % 3 == 1:
+            args.append("--late-set")
         sm, _ = cvh(args)
         traces.append(out); procs += 1; ntr += sm["calls"]
     log("[A] macros: %d child processes (one per global-client configuration, incl. unset)" % procs)
@@ -181,7 +183,8 @@ def run(res, tier, seed, wd, replay=None):
                        "distinct_nontrivial counts the TLC-enumerated shapes and boundary classes (distinct by construction), random calls not counted")
     res.add_tlc({"distinct": v["states"], "generated": v["states"]})
     res.sample({"kind": "trace excerpt (real code)", "events": read_ndjson(trB)[:8]})
-    selftest(res, trA, wd)
+    if not v["bad"]:
+        selftest(res, trA, wd)
     log("[verdict] %d events of %d calls validated by TLC against LineGrammar/ClientProp: %d flagged rules" % (nev, ntr, len(v["bad"])))
 
 
